@@ -163,15 +163,27 @@ func HarnessC18Message() {
 	m.Subject("line discipline")
 	m.SetDateWithValue(hxFixedTime)
 	m.SetMessageIDWithValue("c18@b.c")
-	m.SetBodyString(TypeTextPlain, hxPartText[0])
+	// long file names and descriptions put long values into the MIME part headers
+	long := svPick("long-part-header-values", 2) == 1
+	aname, ename, desc := "att.txt", "emb.png", ""
+	if long {
+		aname = "an attachment with a file name long enough to need folding 0123456789.txt"
+		ename = "an-embedded-image-with-a-file-name-long-enough-to-need-folding-0123456789.png"
+		desc = "a description of the first body part that is long enough to need folding, twice even, so it goes on"
+	}
+	var popts []PartOption
+	if desc != "" {
+		popts = append(popts, WithPartContentDescription(desc))
+	}
+	m.SetBodyString(TypeTextPlain, hxPartText[0], popts...)
 	if shape == 0 || shape == 3 {
 		m.AddAlternativeString(hxPartType[1], hxPartText[1])
 	}
 	if shape == 1 || shape == 3 {
-		_ = m.AttachReader("att.txt", &hxRd{data: []byte(hxFileData[1])})
+		_ = m.AttachReader(aname, &hxRd{data: []byte(hxFileData[1])}, WithFileDescription(desc))
 	}
 	if shape == 2 || shape == 3 {
-		_ = m.EmbedReader("emb.png", &hxRd{data: []byte(hxFileData[0])})
+		_ = m.EmbedReader(ename, &hxRd{data: []byte(hxFileData[0])})
 	}
 	w := &hxRecW{}
 	if _, err := m.WriteTo(w); err != nil {
